@@ -51,15 +51,18 @@ class MacroResolutionOrderVisitor(ExplorerScriptVisitor):
     def visitStart(self, ctx: ExplorerScriptParser.StartContext) -> list[str]:
         self.visitChildren(ctx)
         self._check_cycles()
-        roots = [v for v in self._dependency_graph.vs if len(v.in_edges()) == 0]
+        # Every macro after all macros it calls (the graph has no cycles here): repeatedly take the first macro, in order
+        # of first mention, whose callees are all resolved already.
+        names: list[str] = [v["name"] for v in self._dependency_graph.vs]
+        callees: dict[str, set[str]] = {
+            v["name"]: {self._dependency_graph.vs[e.source]["name"] for e in v.in_edges()}
+            for v in self._dependency_graph.vs
+        }
         resolution_order: list[str] = []
-        for v in roots:
-            resolution_order_local = []
-            for sv in self._dependency_graph.bfsiter(v.index):
-                if sv["name"] in resolution_order:
-                    resolution_order.remove(sv["name"])
-                resolution_order_local.append(sv["name"])
-            resolution_order += resolution_order_local
+        while len(names) > 0:
+            next_name = next(n for n in names if callees[n].issubset(resolution_order))
+            resolution_order.append(next_name)
+            names.remove(next_name)
         return resolution_order
 
     def visitMacrodef(self, ctx: ExplorerScriptParser.MacrodefContext) -> None:
